@@ -374,7 +374,9 @@ func (r *Run) ParkedTasks() []*Task {
 }
 
 // Now is the simulated time since the start of the run.
-func (r *Run) Now() time.Duration { return time.Since(r.start) }
+// Microsecond resolution: the few nanoseconds that library goroutines spend in seeded delays (SetDelay) order
+// them but are not part of any recorded instant.
+func (r *Run) Now() time.Duration { return time.Since(r.start).Truncate(time.Microsecond) }
 
 // Tracef appends one line to the scheduler trace (scheduler goroutine only).
 func (r *Run) Tracef(format string, a ...any) {
